@@ -12,7 +12,7 @@ func main() {
 	serixgen.Main("C03",
 		"catalogue + random registered universes as for C01; per value one enc (validation on or off), per distinct encoding 8 mutated inputs "+
 			"decoded with validation (1 in 5 without); non-trivial = Encode succeeded on a value with a non-empty collection/string, nested struct or non-nil interface",
-		serixgen.Plan{Values: 3, Mutations: 8, RoundTrip: false, BothModes: false}, 900, corpus)
+		serixgen.Plan{Values: 3, Mutations: 8, RoundTrip: false, BothModes: false}, 2500, corpus)
 }
 
 var corpus = [][]string{
